@@ -8,15 +8,27 @@ CLAIMED = {
     "C01": ("Lean 4 theorems about a model of Table.Dispatch and the route Dispatch loops (arbitrary filters) + exact differential validation against real tables",
             "proof: Crng.Props.C01.routes_exact, unroutable_iff, sendAll_exact, sendFirst_exact, blacklisted_nowhere, outcome_partition for every table and line. Correspondence (spec-exact stream): generated tables (blacklist, rewriters incl. regex rules, aggregators, capture / sendAllMatch / sendFirstMatch routes whose down destinations are identified by their drop counters) x generated lines: routes, destinations, delivered line and the in/invalid/blacklist/unroutable counters identical on the real table and the model; a disagreement is reported with the shrunk line as failing input.",
             "trusted: Lean kernel; harness+driver plumbing; model-side regex engine Crng/Rx.lean (validated against Go regexp in C03's rx stream); kafka/pubsub/cloudwatch/grafanaNet/consistent-hashing routes only through their Match; delivery inside a destination is C05-C07.", "§5 C01"),
+    "C02": ("Lean 4 theorems about the validation gate of Table.Dispatch over a byte-level transcription of go-metrics20 ValidatePacket and a model of the bad-metrics map + regenerated facts + differential validation",
+            "proof: Crng.Props.C02.gate_iff, invalid_effects, valid_proceeds, forwarded_only_if_valid, bad_report. Regenerated obligations (Crng.Tie.C02): level-name maps and defaults as UnmarshalText/NewConfig have them, the validate -> bad.Add -> numInvalid -> return block with the two configured levels in order, numIn exactly once, nothing forwarded before the gate, the bad-metrics goroutine serialises add/clean/get. Correspondence (spec-exact): ValidatePacket vs the transcription on grammar-directed byte strings (UTF-8 spaces, tag appendix, = / _is_, NUL / 8-bit, every float spelling) x 3x2 levels; real tables at every level combination given as config text, counters and bad-metrics report.",
+            "trusted: Lean kernel; harness+driver plumbing; strconv.ParseFloat is transcribed (acceptance only) and validated differentially; BadMetrics timing is a logical clock; uint32(float64) of out-of-range timestamps is implementation-defined in Go and only compared on accept/reject.", "§5 C02"),
     "C03": ("Lean 4 theorems: prefix soundness over all regex ASTs, Match = six-condition conjunction, cache transparency over all histories; regenerated call-site facts; differential validation of matcher, prefix derivation and table-level filters",
             "proof: Crng.Props.C03.soundPrefix_sound, prefixOK_of_le, match_eq_conj6, agg_filter_complete, cache_transparent. Regenerated obligations (Crng.Tie.C03): all five Match call sites of the dispatch path pass the name; the aggregator consults PreMatch and MatchRegexAndExpand; the match cache is keyed by the name. Correspondence: real Matcher.Match vs model on generated option sets; derived prefix (read by reflection) <+: soundPrefix of the tree Go's parser produced, on names generated from that tree; table-level filters that could hit value/timestamp text; cache on/off. Monitors: conj6 with Go regexp directly; every matched name starts with the derived prefix.",
             "trusted: Lean kernel; harness+driver plumbing; Go's regexp/syntax parser (string -> tree) and matcher are external: the AST theorem is tied per sampled source; cache expiry timing is modelled as arbitrary deletions.", "§5 C03, App. C"),
+    "C04": ("Lean 4 theorems about the delivered line and bytes.Replace-style literal rewriting + regenerated data-flow facts + differential validation with buffer overwriting while points are queued",
+            "proof: Crng.Props.C04.final_shape, literal_first, literal_absent, literal_max_zero, not_clause_skips. Regenerated obligations (Crng.Tie.C04): Table.Dispatch uses its parameter only in len() and copy(); flow copy -> Fields -> rewriters -> AddMaybe / Join(\" \") -> route.Dispatch; RW.Do skeleton. Correspondence (spec-exact): whitespace layouts x numeric spellings x rewriter lists (literal with every max incl. adversarial rescans, /regex/ with ${n}, not-clauses); the caller's buffer is overwritten right after Dispatch returns, also while points sit in the input queue of parked aggregators; captured slices and aggregate output are re-read afterwards. Monitor: three single-space fields, value/timestamp byte-identical, nothing mutated after hand-off.",
+            "trusted: Lean kernel; harness+driver plumbing; regex rules run on Go regexp (real) vs Crng/Rx.lean (model, validated in C03); the reader-side buffer reuse of input.Plain is covered in C12's harness.", "§5 C04"),
     "C05": ("Lean 4 theorems over all op sequences / buffer sizes / socket behaviours of a statement-level model of destination/bufwriter.go and Conn.Write + exact differential validation against the real Writer, Pickle and a real Destination on loopback",
             "proof: Crng.Props.C05.stream_invariant, socket_prefix, healthy_stream, healthy_lines, pickle_frame (+ Crng.Pk.unpickle_pickle). Correspondence: real destination.Writer under scripted full/short/failing sockets (nn, err, Buffered, socket bytes after every op), destination.Pickle bytes, and a real Destination -> loopback endpoint (iobuf from 1 byte, connbuf, flush 1..50 ms, lines up to 3x iobuf) byte-identical to the model; model-free monitors check order/once/newline/length-prefix and drop accounting.",
             "trusted: Lean kernel; harness+driver plumbing; kernel TCP delivers what was written; the interleaving of HandleData's select is explored by timing only (the theorem covers every interleaving of writes and flushes of the model).", "§5 C05"),
     "C10": ("Lean 4 invariant proof over all histories of points and ticks of a model of aggregator.AddOrCreate/Flush (generic processor) + differential validation of the executable aggregator model (ten processors, %f) against aggregator.NewMocked",
             "proof: Crng.Props.C10.emit_once, emit_ascending, late_is_counted (every rule, every history under a non-decreasing clock), carried to the executable model by step_eq/emitted_eq. Correspondence: boundary-aimed histories (on/around quantized == now-wait, out-of-order, late) x ten functions x intervals/waits produce identical output lines and too-old counts on the real aggregator (injected clock/tick, Snapshot barrier) and the model; monitor: no bucket twice, ascending, count conservation.",
             "trusted: Lean kernel; harness+driver plumbing; Go float arithmetic and sort; emit_value (the numeric formulas) is validated by the differential run, not proved; cache and capture-group expansion are covered under C03.", "§5 C10, App. D"),
+    "C11": ("Lean 4 theorems about DispatchAggregate and the aggregator loop of Table.Dispatch + regenerated facts + differential validation with feedback of aggregator output through Table.In",
+            "proof: Crng.Props.C11.aggregate_only_routes, aggregate_routes_exact, no_amplification, dropraw_exact (complete six-condition filter, via C03.agg_filter_complete), consumed_withheld, others_unaffected. Regenerated obligations (Crng.Tie.C11): Table.In feeds DispatchAggregate only; DispatchAggregate is the route loop; AddMaybe confirms the match before the hand-off and reports drop-raw after it; Dispatch returns on drop-raw. Correspondence (spec-exact): tables with drop-raw, self-matching and chained aggregations plus blacklist entries and rewriters aimed at the aggregate names; each aggregator emission is fed back through Table.In and its routing compared.",
+            "trusted: Lean kernel; harness+driver plumbing; aggregator timing (flush ticks) is injected; numeric aggregation itself is C10.", "§5 C11"),
+    "C19": ("Lean 4 theorems about validate.Ordered over all sequential histories; all interleavings reduced to sequential histories by the regenerated fact that the whole function is one critical section; differential + concurrent validation",
+            "proof: Crng.Props.C19.accepted_strictly_increasing, accept_iff_newer, newer_positive_accepted, not_newer_rejected, collision_counterexample. Regenerated obligations (Crng.Tie.C19): lock first / deferred unlock / strict comparison / update only on acceptance; the gate sits after validation on the validated key and returns on rejection. Correspondence (spec-exact): tables with order validation on, per-name sequences incl. names differing by a leading dot, out-of-order counter and bad-metrics report; concurrent goroutines on the real function with a max-register monitor (no timestamp accepted twice, per-goroutine monotone).",
+            "trusted: Lean kernel; harness+driver plumbing; FNV-64a injective on the names of a history (hypothesis, shown necessary); schedules = interleavings of the extracted critical section.", "§5 C19"),
     "C08": ("Lean 4 theorem over all histories and crash points of a byte-level model of nsqd/diskqueue.go + exact differential validation of the model at every crash hook",
             "proof: Crng.Props.C08.crash_recovery (kernel-checked, all histories x all crash points x all segment/sync settings). The tie to the code is a correspondence check: at every filesystem mutation of the real queue (verif hook) the directory bytes and the recovered messages equal the model's; a model-free monitor checks the property statement on every real recovery.",
             "trusted: Lean kernel; harness+driver plumbing; crash model = process death between filesystem operations (completed operations are durable, nothing torn); filesystem calls succeed until the crash; no second crash during recovery. bufio/os behaviour of Go is modelled.", "§5 C08, App. B"),
